@@ -438,6 +438,35 @@ def body(prop, args, seed, t0):
                 tie_broken("translated_check_t15", bad15, "translator disagreement (measurement statistics)")
     # --- T15 end
 
+    # --- T16: the translated distances between distributions (harness/tables_t16.py -> OQ/Generated/TranslatedC17Distances.lean: the
+    # kernels and `compute_mmd`, the clipped log-likelihood, the Jensen-Shannon divergence, `evaluate_distribution_distance`; tied to the
+    # model by Props/C17_TranslatedDistances.lean) are run at IEEE doubles through the generated glue OQ/Generated/TranslatedDriverT16.lean
+    # (tag "TRT16") and compared with the real Python functions on real objects (harness/translated_check_t16.py)
+    if prop == "C17" and driver.available() and (build_ok or common.lake_build(["oqdriver"])[0]):
+        try:
+            from harness import translated_check_t16 as _tc16
+            from harness import tables_t16 as _tb16
+            n16, bad16, untr16 = _tc16.run(seed, only=prop)
+            tie["translated_t16_vs_python_function"] = n16
+            tie["untranslatable_now"] = list(tie.get("untranslatable_now", [])) + untr16
+            tie["translated_functions"] = list(tie.get("translated_functions", [])) + [
+                f"{sp[0].__module__.split('quantum.')[-1]}.{getattr(sp[0], '__qualname__', sp[0].__name__)} -> Translated.{sp[1]}"
+                for sp in _tb16.specs()]
+        except Timeout:
+            raise
+        except Exception as e:  # noqa: BLE001  (same policy as for the self-checks above)
+            import traceback
+            tie["self_check_crashed"] = f"{type(e).__name__}: {e}"[:300]
+            if not broken:
+                traceback.print_exc()
+                tie_broken("self-check crashed (T16)", [f"{type(e).__name__}: {str(e)[:300]}"], "translator self-check crashed")
+            else:
+                print(f"  note: a translator self-check could not run ({type(e).__name__}: {str(e)[:160]}); {len(broken)} obligation(s) are broken, going on")
+            bad16 = []
+        if bad16:
+            tie_broken("translated_check_t16", bad16, "translator disagreement (distances)")
+    # --- T16 end
+
     # --- T7: the translated CLASSES PauliTerm / PauliSum (harness/translate_t7.py -> OQ/Generated/TranslatedC03.lean, tied to the model of
     # C03 by Props/C03_TranslatedPauli.lean) are run at Cyc8 through the generated glue OQ/Generated/TranslatedDriverT7.lean (tag "TRT7")
     # and compared with the real methods on real objects (harness/translated_check_t7.py); the prelude is compared with CPython for C03
